@@ -401,6 +401,22 @@ func (rn *runner) matrix(g *gen) {
 			one(&val{k: 'H', rec: &rnode{id: g.newID(), tn: "hash", plain: true, keys: []string{"k"}, vals: []*val{{k: 'F', u: math.Float64bits(0.5)}}}}, "H")
 			one(&val{k: 'H', rec: &rnode{id: g.newID(), tn: "hash", plain: true, keys: []string{"k", "j"}, vals: []*val{{k: 'I', i: 3}, {k: 'Z'}}}}, "H")
 		}
+		// keys that are not symbols: a string key names the field like the symbol does; int / char / array keys name nothing
+		for _, d := range s.dets {
+			if d.emb || strings.Contains(d.ty, "?") {
+				continue
+			}
+			root := &rnode{id: g.newID(), tn: s.reg, keys: []string{"$" + d.key}, vals: []*val{g.value(d.ty, g.maxD)}}
+			rn.caseTogo(root, s, "stream:matrix", "key:string")
+		}
+		for _, k := range []string{"#I5", "#C120", "#A"} {
+			root := &rnode{id: g.newID(), tn: s.reg, keys: []string{k}, vals: []*val{{k: 'I', i: 1}}}
+			rn.caseTogo(root, s, "stream:matrix", "key:nonname")
+			if len(s.dets) > 0 && !s.dets[0].emb && !strings.Contains(s.dets[0].ty, "?") {
+				root = &rnode{id: g.newID(), tn: s.reg, keys: []string{s.dets[0].key, k}, vals: []*val{g.value(s.dets[0].ty, g.maxD), {k: 'I', i: 1}}}
+				rn.caseTogo(root, s, "stream:matrix", "key:nonname")
+			}
+		}
 	}
 }
 
@@ -415,6 +431,13 @@ func mutate(g *gen, root *rnode, unknown bool) string {
 		}
 	}
 	n := typed[g.r.Intn(len(typed))]
+	if unknown && g.r.Intn(3) == 0 {
+		// an entry whose key is not a symbol or string (put there with hset): names no field
+		k := []string{fmt.Sprintf("#I%d", g.r.Intn(100)), fmt.Sprintf("#C%d", 97+g.r.Intn(26)), "#A"}[g.r.Intn(3)]
+		n.keys = append(n.keys, k)
+		n.vals = append(n.vals, g.vInt())
+		return "mut:nonname-key"
+	}
 	if unknown || len(n.keys) == 0 {
 		k := g.ident()
 		for _, x := range n.keys {
